@@ -215,6 +215,54 @@ def gen_case(r, idx, thorough):
     return c
 
 
+def rand_qop(r, c):
+    fi = r.below(len(c.forms))
+    f = c.forms[fi]
+    m = len(c.vt)
+    kv = [r.choice(c.kpool[p]) if f.ksrc[p][0] == "var" else f.ksrc[p][1] for p in range(f.j)]
+    vv = [None if f.vsrc[p] is None else (r.choice(c.vpool[p]) if f.vsrc[p][0] == "var" else f.vsrc[p][1]) for p in range(m)]
+    return ("q", fi, kv, vv)
+
+
+def gen_session_ops(r, c, stored):
+    """ops for an ephemeral session on top of a graph holding `stored`: create / update (delete+insert) /
+    delete / re-create of facts that exist on the graph and of facts that exist only in the session,
+    with queries after every write"""
+    n, m = len(c.kt), len(c.vt)
+
+    def rand_key():
+        return tuple(r.choice(c.kpool[p]) for p in range(n))
+
+    def rand_vals():
+        return tuple(r.choice(c.vpool[p]) for p in range(m))
+    ops = []
+    on_graph = sorted(stored)
+    fresh = [k for k in (rand_key() for _ in range(6)) if k not in stored]
+    scripts = []
+    for k in (r.shuffle(list(on_graph))[:2] if on_graph else []):
+        if m > 0:
+            scripts.append([("upd", k, None, rand_vals(), "current"), ("del", k), ("put", k, rand_vals()), ("del", k)])
+            scripts.append([("upd_any", k, rand_vals()), ("del", k)])
+        scripts.append([("del", k), ("put", k, rand_vals()), ("del", k)])
+    for k in fresh[:2]:
+        scr = [("put", k, rand_vals())]
+        if m > 0:
+            scr.append(("upd_any", k, rand_vals()))
+        scr += [("del", k), ("put", k, rand_vals())]
+        scripts.append(scr)
+    r.shuffle(scripts)
+    for scr in scripts[:r.choice([2, 3, 4])]:
+        for o in scr:
+            ops.append(o)
+            for _ in range(r.choice([1, 1, 2])):
+                ops.append(rand_qop(r, c))
+    for _ in range(r.choice([1, 2, 3])):
+        what = r.choice(["put", "del", "q", "q"])
+        ops.append(("put", rand_key(), rand_vals()) if what == "put" else ("del", rand_key()) if what == "del" else rand_qop(r, c))
+    ops.append(rand_qop(r, c))
+    return ops
+
+
 def fact_lit(c, keys, vals):
     """text of F[..]=>{..}; keys: list of exprs or None(bind) for ALL key positions; vals: None or list for all value positions"""
     ks = ", ".join("%s: %s" % (c.kn[p], keys[p] if keys[p] is not None else "?") for p in range(len(c.kn)))
@@ -237,12 +285,19 @@ def policy_text(c):
     if c.decoy:
         out.append("fact G[k0 int]=>{v0 int}\n")
 
+    sess = getattr(c, "session", False)
+
     def command(name, fields, body):
         out.append("command %s {\n    attributes { priority: 0 }\n    fields { %s }\n%s    policy {\n%s    }\n}\n" % (
             name, ", ".join(fields + ["z int"]), SEALOPEN, body))
+        if sess:   # the same command for ephemeral sessions
+            out.append("ephemeral command E%s {\n    fields { %s }\n%s    policy {\n%s    }\n}\n" % (
+                name, ", ".join(fields + ["z int"]), SEALOPEN, body))
 
     def action(name, params, body):
         out.append("action %s(%s) {\n%s}\n" % (name, ", ".join(params + ["z int"]), body))
+        if sess:
+            out.append("ephemeral action e%s(%s) {\n%s}\n" % (name, ", ".join(params + ["z int"]), body.replace("publish ", "publish E")))
 
     out.append("command Init {\n    attributes { init: true }\n    fields { nonce int }\n%s    policy { finish {} }\n}\n" % SEALOPEN)
     out.append("action init(nonce int) { publish Init { nonce: nonce } }\n")
@@ -324,7 +379,12 @@ def policy_text(c):
     return "".join(out)
 
 
-def op_line(c, op):
+def op_line(c, op, sess=False):
+    l = op_line0(c, op)
+    return "E:e" + l[2:] if sess else l
+
+
+def op_line0(c, op):
     z = "i0"
     if op[0] == "put":
         a = [arg(t, v) for t, v in zip(c.kt, op[1])] + [arg(t, v) for t, v in zip(c.vt, op[2])]
@@ -562,13 +622,27 @@ def run(ctx):
     for i in range(ncases):
         c = gen_case(r, i, ctx.thorough)
         c.ops = resolve_current(c, c.ops)
+        # every 4th case also runs an ephemeral session on top of the graph it has built
+        c.session = (i % 4 == 3)
+        c.sops = []
+        if c.session:
+            stored = {}
+            for o in c.ops:
+                oracle_step(c, stored, o)
+            sops = gen_session_ops(r, c, stored)
+            c.sops = resolve_current(c, c.ops + sops)[len(c.ops):]
         if c.decoy:
             c.ops.insert(r.below(len(c.ops)), ("put_g", r.choice([1, 2, 3])))
         c.policy = policy_text(c)
         cases.append(c)
     lcases = limit_cases(r, 40 if ctx.thorough else 8)
 
-    inp = "".join("%s %s;D:F\n" % (c.policy.encode().hex(), ";".join(op_line(c, o) for o in c.ops)) for c in cases)
+    def case_line(c):
+        ops = [op_line(c, o) for o in c.ops]
+        if c.session:
+            ops += ["S"] + [op_line(c, o, True) for o in c.sops] + ["R"]
+        return "%s %s;D:F\n" % (c.policy.encode().hex(), ";".join(ops))
+    inp = "".join(case_line(c) for c in cases)
     inp += "".join("%s A:q(i0)\n" % limit_policy(k, l).encode().hex() for (k, l) in lcases)
     import concurrent.futures
     lines_in = inp.splitlines(True)
@@ -588,19 +662,35 @@ def run(ctx):
     # ---- fact operation cases
     oracle_fail, bad, pairs = [], [], []
     stats = {"ops": 0, "rows_returned": 0, "multi_row_maps": 0, "value_filtered": 0, "errors": 0, "prefix_partial": 0,
-             "capped_counts": 0, "stored_facts_final": 0, "literal_bound": 0}
+             "capped_counts": 0, "stored_facts_final": 0, "literal_bound": 0, "session_cases": 0, "session_ops": 0}
     kinds_seen = {}
     nontrivial = set()
     for ci, c in enumerate(cases):
         line = lines[ci]
         parts = line.split(";")
-        if len(parts) != len(c.ops) + 1 or not parts[-1].startswith("dump["):
+        nparts = len(c.ops) + 1 + (len(c.sops) + 2 if c.session else 0)
+        if len(parts) != nparts or not parts[-1].startswith("dump["):
             bad.append((ci, line[:300]))
             continue
+        recv = None
+        if c.session:
+            if parts[len(c.ops)] != "session":
+                bad.append((ci, parts[len(c.ops)][:100]))
+                continue
+            recv = parts[-2]
+            parts = parts[:len(c.ops)] + parts[len(c.ops) + 1:-2] + parts[-1:]
         store = {}
+        graph_store = None
         obs = []
         nt = False
-        for oi, (op, res) in enumerate(zip(c.ops, parts)):
+        sess_effects = []
+        for oi, (op, res) in enumerate(zip(c.ops + c.sops, parts)):
+            if oi == len(c.ops):
+                graph_store = dict(store)      # what the graph holds when the session starts
+            if oi >= len(c.ops):
+                stats["session_ops"] += 1
+                if res.startswith("ok[") and res[3:-1]:
+                    sess_effects.append(res[3:-1])
             want = oracle_step(c, store, op)
             got = observe(c, op, res)
             obs.append(got)
@@ -628,6 +718,14 @@ def run(ctx):
                     stats["literal_bound"] += 1
             if want == ("err",):
                 stats["errors"] += 1
+        if c.session:
+            stats["session_cases"] += 1
+            # the session is ephemeral: the graph's store is what it was when the session started
+            store = graph_store if graph_store is not None else store
+            # a second session receiving the first one's commands re-emits exactly its effects
+            want_recv = "recv[%s]" % "|".join(sess_effects)
+            if recv != want_recv:
+                oracle_fail.append((ci, "session-receive", want_recv[:400], recv[:400]))
         dump = parse_dump(c, parts[-1])
         stats["stored_facts_final"] += len(dump)
         # oracle on the final store: the typed facts, in typed key order
@@ -636,7 +734,7 @@ def run(ctx):
         if [v for _, v in want_store] != got_store or any([n for n, _ in vals] != c.vn for _, vals in dump):
             oracle_fail.append((ci, "final-store", want_store, dump))
         if nt:
-            nontrivial.add((tuple(c.kt), tuple(c.vt), tuple(op_line(c, o) for o in c.ops)))
+            nontrivial.add((tuple(c.kt), tuple(c.vt), tuple(op_line(c, o) for o in c.ops + c.sops)))
         pairs.append((c, obs, dump))
 
     # ---- compile-time stream
@@ -653,11 +751,16 @@ def run(ctx):
 
     # ---- model side, compared inside Coq
     def render(chunk):
-        items = ["(%s, [%s], [%s], %s)" % (coq_schema(c), "; ".join(coq_op(c, o) for o in c.ops if o[0] != "put_g"),
-                                           "; ".join(coq_result(c, ob) for o, ob in zip(c.ops, obs) if o[0] != "put_g"),
-                                           coq_dump(c, dump)) for (c, obs, dump) in chunk]
-        return ("Definition cases : list (schema * list op * list result * list (list bytes * list fval)) := [%s].\n"
-                "Eval vm_compute in (mismatches c_check cases).\n" % ";\n ".join(items))
+        items = []
+        for (c, obs, dump) in chunk:
+            allops = c.ops + c.sops
+            items.append("(%s, [%s], [%s], [%s], %s)" % (
+                coq_schema(c), "; ".join(coq_op(c, o) for o in c.ops if o[0] != "put_g"),
+                "; ".join(coq_op(c, o) for o in c.sops),
+                "; ".join(coq_result(c, ob) for o, ob in zip(allops, obs) if o[0] != "put_g"),
+                coq_dump(c, dump)))
+        return ("Definition cases : list (schema * list op * list op * list result * list (list bytes * list fval)) := [%s].\n"
+                "Eval vm_compute in (mismatches c_check_sess cases).\n" % ";\n ".join(items))
 
     clean = [p for p in pairs if not any(ob[0] == "bad" for ob in p[1])]
     outs, chunks = vlib.coq_eval_sharded(ctx, "c29", COQ_HEADER, clean, render, shard=30 if not ctx.thorough else 60)
@@ -721,7 +824,8 @@ def run(ctx):
     for (ci, oi, want, got) in oracle_fail[:3]:
         c = cases[ci]
         ctx.violation("policy fact operation disagrees with the fact-store oracle (case %d, op %s): expected %r, implementation %r" % (ci, oi, want, got),
-                      {"schema": {"keys": c.kt, "values": c.vt}, "policy": c.policy, "ops": [op_line(c, o) for o in c.ops],
+                      {"schema": {"keys": c.kt, "values": c.vt}, "policy": c.policy,
+                       "ops": [op_line(c, o) for o in c.ops] + (["S"] + [op_line(c, o, True) for o in c.sops] + ["R"] if c.session else []),
                        "failing_op": oi, "expected": repr(want), "impl": repr(got), "impl_line": lines[ci],
                        "contradicts": "vm_fact_ops_refine (coq/props/C29.v)",
                        "replay_cmd": "printf '%%s %%s;D:F\\n' <policy hex> '<ops>' | build/target/debug/c29"})
